@@ -955,6 +955,8 @@ def to_ms(graph: demes.Graph, *, N0, samples=None) -> str:
             if size != epoch.end_size:
                 size = epoch.end_size
                 events.append(PopulationSizeChange(epoch.end_time, j, size / N0))
+                # In ms, -en also sets the growth rate of the population to zero.
+                growth_rate = 0
             alpha = get_growth_rate(epoch)
             if growth_rate != alpha:
                 growth_rate = alpha
